@@ -120,6 +120,10 @@ def main(argv=None):
         code = run_native_standins(vc, prop, report, code)
         if args.tier == "thorough":
             code = thorough_extras(vc, prop, report, code)
+        if any("replay=" in v and "no-failing-input-found" not in v for v in report["violations"]):
+            # a violation that was reproduced natively on the real code stands, whatever else could not be analysed
+            # (e.g. another harness stopped at syntax outside the engine's fragment)
+            code = 1
     except source.SourceError as e:
         report["errors"].append(f"SourceError: {e}")
         code = 3
